@@ -268,6 +268,39 @@ def h_misc(ctx, what):
     ctx.check('the dead handler is unsubscribed', src._eventMixin_get_listener_count() == 2)
     del calls[:]; go()
     ctx.check('next delivery: survivors only', calls == ['dropper', 'tail'])
+  elif what == 'noerrors_kinds':
+    # error suppression holds for whatever a handler raises: ordinary errors, exceptions outside the Exception hierarchy (a handler calling
+    # sys.exit(), a stray KeyboardInterrupt/GeneratorExit, a library's BaseException subclass), and for both raise forms; the failing handler
+    # ends the delivery, the subscriptions are untouched and the next delivery runs normally
+    class Abort(BaseException): pass
+    kinds = [ValueError, Boom, Abort, SystemExit, KeyboardInterrupt, GeneratorExit, StopIteration, AssertionError]
+    k = int(ctx.int('kind', 0, len(kinds) - 1)); how = int(ctx.int('raise_form', 0, 1)); pos = int(ctx.int('position', 0, 2))
+    calls = []; arm = [True]
+    def bad(e):
+      calls.append('bad')
+      if arm[0]: raise kinds[k]("handler failure")
+    hs = [lambda e: calls.append('h0'), lambda e: calls.append('h1')]
+    hs.insert(pos, bad)
+    for i, h in enumerate(hs): src.addListener(w.E1, h, priority=10 - i)
+    seen = []
+    old = R.handleEventException
+    R.handleEventException = lambda source, event, args, kw, exc_info: seen.append(exc_info[0])
+    failed = None
+    try:
+      try: rv = src.raiseEventNoErrors(w.E1) if how == 0 else src.raiseEventNoErrors(w.E1())
+      except BaseException as ex:
+        if type(ex).__module__.startswith('symx'): raise
+        failed = ex
+    finally:
+      R.handleEventException = old
+    ctx.check('raiseEventNoErrors does not propagate what a handler raises (any exception class)', failed is None)
+    ctx.check('the failure is handed to handleEventException exactly once', seen == [kinds[k]])
+    ctx.check('handlers before the failing one ran, none after it', calls == ['h0', 'h1'][:pos] + ['bad'])
+    ctx.check('subscriptions are untouched', src._eventMixin_get_listener_count() == 3)
+    arm[0] = False; del calls[:]
+    src.raiseEventNoErrors(w.E1)
+    exp = ['h0', 'h1']; exp.insert(pos, 'bad')
+    ctx.check('the next delivery runs normally', calls == exp)
   elif what == 'autobind':
     calls = []
     class Sink:
@@ -294,6 +327,6 @@ def obligations(tier):
   return [
     Obligation('O1_histories', h_history, [dict(plan=p, behs=behs) for p in plans], witnesses=('done',), max_decisions=20000,
                desc='invocation log == reference dispatcher over symbolic histories'),
-    Obligation('O2_misc', h_misc, [dict(what=x) for x in ('undeclared', 'weak', 'weak_during', 'autobind')], witnesses=('done',),
+    Obligation('O2_misc', h_misc, [dict(what=x) for x in ('undeclared', 'weak', 'weak_during', 'noerrors_kinds', 'autobind')], witnesses=('done',),
                desc='undeclared types rejected; weak handlers; autoBindEvents/removeListeners'),
   ]
